@@ -993,4 +993,204 @@ theorem readHeaders_lines : ∀ (hs : List (Bytes × Bytes)) (f : Nat) (i : Inp)
     · rw [hlen, ← advance_advance]; exact hdat2
 
 
+
+
+/-! ### request line and status line -/
+
+/-- a word of the first line: not empty, no blank, no LF -/
+def WFWord (w : Bytes) : Prop := w ≠ [] ∧ ∀ c ∈ w, c ≠ 32 ∧ c ≠ 10
+
+theorem indexOfFrom_eq (c : UInt8) (s : Bytes) (k : Nat) (n : Nat) (h : indexOfByte c (s.drop k) = some n) :
+    indexOfFrom c s k = some (n + k) := by
+  unfold indexOfFrom; rw [h]; rfl
+
+theorem http11_trim : trimmed (sHttp11 ++ [13]) = sHttp11 := by decide
+
+theorem request_line_parse {method target : Bytes} (hm : WFWord method) (ht : WFWord target) :
+    let cmd := method ++ [32] ++ target ++ [32] ++ sHttp11 ++ [13]
+    cmd.isEmpty = false ∧
+    indexOfByte 32 cmd = some method.length ∧
+    indexOfFrom 32 cmd (method.length + 1) = some (target.length + (method.length + 1)) ∧
+    cmd.take method.length = method ∧
+    (cmd.drop (method.length + 1)).take (target.length + (method.length + 1) - (method.length + 1)) = target ∧
+    trimmed (cmd.drop (target.length + (method.length + 1) + 1)) = sHttp11 := by
+  intro cmd
+  have hcmd : cmd = method ++ 32 :: (target ++ 32 :: (sHttp11 ++ [13])) := by simp [cmd]
+  obtain ⟨a, m', hma⟩ := List.exists_cons_of_ne_nil hm.1
+  have hd1 : cmd.drop (method.length + 1) = target ++ 32 :: (sHttp11 ++ [13]) := by
+    rw [hcmd, show method ++ 32 :: (target ++ 32 :: (sHttp11 ++ [13])) = (method ++ [32]) ++ (target ++ 32 :: (sHttp11 ++ [13])) by simp,
+      show method.length + 1 = (method ++ [32]).length by simp, List.drop_left]
+  refine ⟨?_, ?_, ?_, ?_, ?_, ?_⟩
+  · rw [hcmd, hma]; rfl
+  · rw [hcmd]; exact indexOfByte_append 32 method _ (fun x hx => (hm.2 x hx).1)
+  · apply indexOfFrom_eq
+    rw [hd1]; exact indexOfByte_append 32 target _ (fun x hx => (ht.2 x hx).1)
+  · rw [hcmd]; simp
+  · rw [hd1]; simp
+  · have : cmd.drop (target.length + (method.length + 1) + 1) = sHttp11 ++ [13] := by
+      rw [show target.length + (method.length + 1) + 1 = (method.length + 1) + (target.length + 1) by omega, ← List.drop_drop, hd1,
+        show target ++ 32 :: (sHttp11 ++ [13]) = (target ++ [32]) ++ (sHttp11 ++ [13]) by simp,
+        show target.length + 1 = (target ++ [32]).length by simp, List.drop_left]
+    rw [this]; exact http11_trim
+
+/-- `String::split()` peels off a leading word -/
+theorem splitWs_word (w t : Bytes) (hw0 : w ≠ []) (hw : ∀ c ∈ w, isSpace c = false) : splitWs (w ++ 32 :: t) = w :: splitWs t := by
+  unfold splitWs
+  rw [List.foldr_append]
+  simp only [List.foldr_cons]
+  have h32 : isSpace 32 = true := by decide
+  simp only [h32, if_true]
+  generalize hr : List.foldr (fun c (acc : Bytes × List Bytes) =>
+      if isSpace c = true then ([], if acc.1.isEmpty = true then acc.2 else acc.1 :: acc.2) else (c :: acc.1, acc.2)) ([], []) t = r
+  -- folding the non-blank letters of `w` just conses them
+  have hfold : ∀ (w : Bytes), (∀ c ∈ w, isSpace c = false) → ∀ (cur : Bytes) (ws : List Bytes),
+      List.foldr (fun c (acc : Bytes × List Bytes) =>
+        if isSpace c = true then ([], if acc.1.isEmpty = true then acc.2 else acc.1 :: acc.2) else (c :: acc.1, acc.2)) (cur, ws) w
+        = (w ++ cur, ws) := by
+    intro w
+    induction w with
+    | nil => intro _ cur ws; rfl
+    | cons a w ih =>
+      intro hw cur ws
+      have ha := hw a List.mem_cons_self
+      simp only [List.foldr_cons, ih (fun c hc => hw c (List.mem_cons_of_mem _ hc)), ha, Bool.false_eq_true, if_false, List.cons_append]
+  rw [hfold w hw]
+  simp [hw0]
+
+
+/-! ### whole messages -/
+
+/-- what the reader stores for a list of header lines -/
+def norm (hs : List (Bytes × Bytes)) : Dic := hs.foldl (fun d nv => setHeader d nv.1 nv.2) []
+
+/-- how the body follows the header block, as the stored headers `H` announce it: `Framed blk H wire body` -/
+inductive Framed (blk : Nat) (H : Dic) : Bytes → Bytes → Prop
+  | len (body : Bytes) : hasHeader H sContentLength = true → header H sContentLength = utoa body.length →
+      header H sTransferEncoding ≠ sChunked → Framed blk H body body
+  | chunked (parts : List Bytes) : hasHeader H sContentLength = false → header H sTransferEncoding = sChunked →
+      Framed blk H ((parts.map (writeBody true blk)).flatten ++ lastChunk) parts.flatten
+  | none : hasHeader H sContentLength = false → header H sTransferEncoding ≠ sChunked → Framed blk H [] []
+
+theorem readBody_framed (blk rblk : Nat) (hb : 0 < blk) (hb2 : blk < 4294967296) (hr : 0 < rblk) (H : Dic) (w body rest : Bytes)
+    (hf : Framed blk H w body) (i : Inp) (hi : Live i) (hd : i.data = w ++ rest) :
+    readBodyWith rblk H i = (body, i.advance w.length) ∧ (i.advance w.length).data = rest := by
+  cases hf with
+  | len _ hcl hv hte => exact readBody_len rblk hr H _ rest i hi hcl hv hte hd
+  | chunked parts hcl hte =>
+    have := readBody_chunked blk rblk hb hb2 hr H parts rest i hi hcl hte (by rw [hd])
+    simpa [lastChunk] using this
+  | none hcl hte =>
+    have hte' : (header H sTransferEncoding == sChunked) = false := by simpa using hte
+    constructor
+    · unfold readBodyWith; simp [hcl, hte', advance_zero]
+    · simpa using hd
+
+theorem recvBlock_pos : 0 < recvBlock := by decide
+theorem sendBlock_pos : 0 < sendBlock := by decide
+theorem sendBlock_lt : sendBlock < 4294967296 := by decide
+
+/-- `HttpRequest::read` on the bytes of a request: first line, header lines, framed body; then whatever follows -/
+theorem readRequest_wire (blk : Nat) (hb : 0 < blk) (hb2 : blk < 4294967296) (method target : Bytes) (hs : List (Bytes × Bytes))
+    (w body rest : Bytes) (hm : WFWord method) (ht : WFWord target) (hfit : method.length + target.length + 11 ≤ 16001)
+    (hwf : WFHeaders hs) (hf : Framed blk (norm hs) w body) (i : Inp) (hi : Live i)
+    (hd : i.data = method ++ [32] ++ target ++ [32] ++ sHttp11 ++ crlf ++ headerLines hs ++ crlf ++ w ++ rest) :
+    ∃ i' : Inp, readRequest i =
+      ({ method := method, resource := target, proto := sHttp11, headers := norm hs, body := body,
+         path := (splitTarget target).1, querystring := (splitTarget target).2.1, fragment := (splitTarget target).2.2 }, i') ∧
+      i'.data = rest ∧ Live i' := by
+  have hd' : i.data = (method ++ [32] ++ target ++ [32] ++ sHttp11 ++ [13]) ++ 10 :: (headerLines hs ++ crlf ++ (w ++ rest)) := by
+    rw [hd]; simp [crlf, List.append_assoc]
+  have hnolf : ∀ c ∈ method ++ [32] ++ target ++ [32] ++ sHttp11 ++ [13], c ≠ 10 := by
+    intro c hc
+    simp only [List.mem_append, List.mem_cons, List.mem_singleton, List.not_mem_nil, or_false] at hc
+    rcases hc with ((((h1 | h1) | h1) | h1) | h1) | h1
+    · exact (hm.2 c h1).2
+    · subst h1; decide
+    · exact (ht.2 c h1).2
+    · subst h1; decide
+    · intro h10; subst h10; revert h1; decide
+    · subst h1; decide
+  have hll : (method ++ [32] ++ target ++ [32] ++ sHttp11 ++ [13]).length = method.length + target.length + 11 := by
+    simp [sHttp11]; omega
+  obtain ⟨hrl, hrest⟩ := readLine_line hi _ _ hnolf (by rw [hll]; omega) hd'
+  obtain ⟨q1, q2, q3, q4, q5, q6⟩ := request_line_parse hm ht
+  have hi1 : Live (i.advance ((method ++ [32] ++ target ++ [32] ++ sHttp11 ++ [13]).length + 1)) := hi
+  obtain ⟨hrh, hdat⟩ := readHeaders_lines hs ((i.advance ((method ++ [32] ++ target ++ [32] ++ sHttp11 ++ [13]).length + 1)).data.length + 1)
+    _ [] [] [] (w ++ rest) hi1 hwf
+    (by rw [hrest]; have := headerLines_length hs; simp only [List.length_append]; omega) hrest
+  have hi2 : Live ((i.advance ((method ++ [32] ++ target ++ [32] ++ sHttp11 ++ [13]).length + 1)).advance ((headerLines hs).length + 2)) := hi
+  obtain ⟨hrb, hdat2⟩ := readBody_framed blk recvBlock hb hb2 recvBlock_pos (norm hs) w body rest hf _ hi2 hdat
+  refine ⟨_, ?_, hdat2, hi⟩
+  unfold readRequest
+  rw [hrl]
+  have herr : (i.advance ((method ++ [32] ++ target ++ [32] ++ sHttp11 ++ [13]).length + 1)).err = false := hi.2
+  simp only [q1, herr, Bool.false_eq_true, or_self, if_false, q2, q3, q4, q5, q6]
+  unfold readHeaders
+  rw [hrh]
+  simp only []
+  unfold readBody
+  unfold norm at hrb
+  rw [hrb]
+  rfl
+
+
+theorem digit_not_space {c : UInt8} (h : IsDigit c) : isSpace c = false ∧ c ≠ 10 := by
+  have hx : ∀ k : UInt8, k < 48 → c ≠ k := by
+    intro k hk hck; subst hck
+    exact absurd h.1 (by simpa using hk)
+  refine ⟨?_, hx 10 (by decide)⟩
+  unfold isSpace
+  simp [hx 32 (by decide), hx 10 (by decide), hx 13 (by decide), hx 9 (by decide)]
+
+/-- the status line and what follows it, as `Http::request` reads them -/
+theorem readResponse_wire (blk : Nat) (hb : 0 < blk) (hb2 : blk < 4294967296) (proto msg : Bytes) (code : Nat)
+    (hs : List (Bytes × Bytes)) (w body rest : Bytes)
+    (hp0 : proto ≠ []) (hp : ∀ c ∈ proto, isSpace c = false) (hmsg : ∀ c ∈ msg, c ≠ 10)
+    (hfit : proto.length + (utoa code).length + msg.length + 3 ≤ 16001)
+    (hwf : WFHeaders hs) (hf : Framed blk (norm hs) w body) (i : Inp) (hi : Live i)
+    (hd : i.data = proto ++ [32] ++ utoa code ++ [32] ++ msg ++ crlf ++ headerLines hs ++ crlf ++ w ++ rest) :
+    ∃ i' : Inp, readResponse i = ({ code := code, proto := proto, headers := norm hs, body := body, sockError := [] }, i') ∧
+      i'.data = rest ∧ Live i' := by
+  have hd' : i.data = (proto ++ [32] ++ utoa code ++ [32] ++ msg ++ [13]) ++ 10 :: (headerLines hs ++ crlf ++ (w ++ rest)) := by
+    rw [hd]; simp [crlf, List.append_assoc]
+  have hnolf : ∀ c ∈ proto ++ [32] ++ utoa code ++ [32] ++ msg ++ [13], c ≠ 10 := by
+    intro c hc
+    simp only [List.mem_append, List.mem_cons, List.not_mem_nil, or_false] at hc
+    rcases hc with ((((h1 | h1) | h1) | h1) | h1) | h1
+    · intro h10; subst h10; have := hp 10 h1; revert this; decide
+    · subst h1; decide
+    · exact (digit_not_space (utoa_digits code c h1)).2
+    · subst h1; decide
+    · exact hmsg c h1
+    · subst h1; decide
+  have hll : (proto ++ [32] ++ utoa code ++ [32] ++ msg ++ [13]).length = proto.length + (utoa code).length + msg.length + 3 := by
+    simp; omega
+  obtain ⟨hrl, hrest⟩ := readLine_line hi _ _ hnolf (by rw [hll]; omega) hd'
+  have hi1 : Live (i.advance ((proto ++ [32] ++ utoa code ++ [32] ++ msg ++ [13]).length + 1)) := hi
+  obtain ⟨hrh, hdat⟩ := readHeaders_lines hs ((i.advance ((proto ++ [32] ++ utoa code ++ [32] ++ msg ++ [13]).length + 1)).data.length + 1)
+    _ [] [] [] (w ++ rest) hi1 hwf
+    (by rw [hrest]; have := headerLines_length hs; simp only [List.length_append]; omega) hrest
+  have hi2 : Live ((i.advance ((proto ++ [32] ++ utoa code ++ [32] ++ msg ++ [13]).length + 1)).advance ((headerLines hs).length + 2)) := hi
+  obtain ⟨hrb, hdat2⟩ := readBody_framed blk recvBlock hb hb2 recvBlock_pos (norm hs) w body rest hf _ hi2 hdat
+  have hsplit : splitWs (proto ++ [32] ++ utoa code ++ [32] ++ msg ++ [13]) = proto :: utoa code :: splitWs (msg ++ [13]) := by
+    rw [show proto ++ [32] ++ utoa code ++ [32] ++ msg ++ [13] = proto ++ 32 :: (utoa code ++ 32 :: (msg ++ [13])) by simp]
+    rw [splitWs_word proto _ hp0 hp, splitWs_word (utoa code) _ (utoa_ne_nil code)
+      (fun c hc => (digit_not_space (utoa_digits code c hc)).1)]
+  have hne : (proto ++ [32] ++ utoa code ++ [32] ++ msg ++ [13]).isEmpty = false := by
+    cases proto with
+    | nil => exact absurd rfl hp0
+    | cons a t => rfl
+  refine ⟨_, ?_, hdat2, hi⟩
+  unfold readResponse readResponseHead
+  rw [hrl]
+  simp only [hne, Bool.false_eq_true, if_false, hsplit]
+  unfold readHeaders
+  rw [hrh]
+  simp only [atoi_utoa]
+  unfold readBody
+  unfold norm at hrb
+  rw [hrb]
+  rfl
+
+
 end AslProofs.HttpFrame
